@@ -185,9 +185,9 @@ pub fn run(prop: &str) {
         }
         rep.sample(json!({"part":"long session","script":"40 requests in both directions under one session, every 5th request's datagram lost (retransmission), peer restarted half-way (re-key with requests in flight), nonce randomness forced constant"}));
     }
-    // C03 / C13 are also decided against a malicious peer / on-path attacker
-    if prop == "C03" || prop == "C13" {
-        let ak: u32 = std::env::var("VERIF_AK").ok().and_then(|v| v.parse().ok()).unwrap_or(if thorough { 5 } else { 4 });
+    // C03 / C13 / C04 are also decided against a malicious peer / on-path attacker
+    if prop == "C03" || prop == "C13" || prop == "C04" {
+        let ak: u32 = std::env::var("VERIF_AK").ok().and_then(|v| v.parse().ok()).unwrap_or(if thorough { 5 } else if prop == "C04" { 2 } else { 3 });
         let (st, vio, samples) = crate::attack::explore(prop, thorough, mc::budget(thorough, 40.0, 0.5), ak);
         rep.set("attacker_worlds_states", st.states);
         rep.set("attacker_worlds_executions", st.executions);
